@@ -208,6 +208,9 @@ def tlc_generate(module, cfg, outfile_env="OUT", key_extra="", **kw):
         return [json.loads(l) for l in f if l.strip()]
 
 
+NONINTEGRAL = 987654321      # stands for a non-integral real where the specification computes integers (see validate_traces)
+
+
 def validate_traces(module, event_files, cfg=None, timeout=1500, heap="3g", env=None):
     """Validate each event file against the trace specification (one TLC per file, in parallel).
     Returns (mismatches, stats) where each mismatch is dict(event=<event>, expect=..., why=..., file=..., l=...)."""
@@ -215,10 +218,27 @@ def validate_traces(module, event_files, cfg=None, timeout=1500, heap="3g", env=
         n = sum(1 for _ in open(ef))
         if n == 0:
             return ef, [], dict(generated=0, distinct=0, events=0)
+        # A non-integral real travels as the token "f:<value>".  No reference operator produces such a token, so it can only
+        # mismatch; TLC however refuses to compare a string with an integer (evaluation error, the whole file would be
+        # inconclusive).  Such elements are therefore handed to TLC as a sentinel integer no operator computes; the mismatch
+        # record still shows the original event.
+        raw = open(ef).read()
+        if '"f:' in raw:
+            def clean(x):
+                if isinstance(x, str) and x.startswith("f:"): return NONINTEGRAL
+                if isinstance(x, list): return [clean(v) for v in x]
+                if isinstance(x, dict): return {k: (clean(v) if k in ("elems", "eval_elems", "res", "obs", "proj") else v) for k, v in x.items()}
+                return x
+            ef_tlc = ef + ".tlc"
+            with open(ef_tlc, "w") as f:
+                for l in raw.splitlines():
+                    if l.strip(): f.write(json.dumps(clean(json.loads(l)), separators=(",", ":")) + "\n")
+        else:
+            ef_tlc = ef
         bad = ef + ".bad"
         if os.path.exists(bad):
             os.remove(bad)
-        e = {"TRACE": ef, "OUT": bad}
+        e = {"TRACE": ef_tlc, "OUT": bad}
         e.update(env or {})
         r = tlc(module, cfg, workers=1, env=e, timeout=timeout, heap=heap, label=os.path.basename(ef))
         if not r["ok"] or not os.path.exists(bad):
